@@ -35,6 +35,8 @@ func init() {
 	cf := "internal/backends/compiler_wat/compile_func.go"
 	hp := "waroot/src/runtime/heap.wat.ws"
 	register(&Property{ID: "C11", Run: runC11, Mutants: []Mutant{
+		{Name: "deferred interface call: scratch register released but not re-initialised", File: cf, Old: "\t\tinsts = append(insts, free_data.EmitRelease()...)\n\t\tinsts = append(insts, free_data.EmitInit()...)\n\n\t\tinsts = append(insts, closure.EmitPushNoRetain()...)", New: "\t\tinsts = append(insts, free_data.EmitRelease()...)\n\n\t\tinsts = append(insts, closure.EmitPushNoRetain()...)", Expect: "register-release-reinit :: functionGenerator.genMakeDefer"},
+		{Name: "comma-ok interface assertion forgets to retain", File: "waroot/src/runtime/interface.wat.ws", Old: "\t    local.get $d.b\n\t\tcall $runtime.Block.Retain\n\t    local.get $d.d\n\t    local.get $t\n\t    local.get $eq\n\t    i32.const 1", New: "\t    local.get $d.b\n\t    local.get $d.d\n\t    local.get $t\n\t    local.get $eq\n\t    i32.const 1", Expect: "commaok-sibling"},
 		{Name: "block push forgets to retain", File: vb, Old: "\tinsts = append(insts, wat.NewInstCall(\"runtime.Block.Retain\"))\n\treturn\n}\n\nfunc (v *aBlock) EmitPushNoRetain", New: "\treturn\n}\n\nfunc (v *aBlock) EmitPushNoRetain", Expect: "leaf-pairing :: aBlock.EmitPush"},
 		{Name: "no-retain push retains", File: vb, Old: "func (v *aBlock) EmitPushNoRetain() (insts []wat.Inst) {\n\tinsts = append(insts, v.push(v.name))\n", New: "func (v *aBlock) EmitPushNoRetain() (insts []wat.Inst) {\n\tinsts = append(insts, v.push(v.name))\n\tinsts = append(insts, wat.NewInstCall(\"runtime.Block.Retain\"))\n", Expect: "leaf-pairing :: aBlock.EmitPushNoRetain"},
 		{Name: "pop overwrites before releasing", File: vb, Old: "\tinsts = append(insts, v.EmitRelease()...)\n\tinsts = append(insts, v.pop(v.name))\n", New: "\tinsts = append(insts, v.pop(v.name))\n\tinsts = append(insts, v.EmitRelease()...)\n", Expect: "leaf-pairing :: aBlock.EmitPop"},
@@ -48,6 +50,7 @@ func init() {
 		{Name: "allocation no longer zeroed", File: hp, Old: "\t\ti64.const 0\n\t\ti64.store\n", New: "\t\tdrop\n", Expect: "alloc-zeroed"},
 	}})
 	register(&Property{ID: "C12", Run: runC12, Mutants: []Mutant{
+		{Name: "storing nil skips the release of the old value", File: vb, Old: "\tinsts = append(insts, addr.EmitPush()...)                       // a\n\tinsts = append(insts, v.EmitPush()...)                          // a v", New: "\tif v.Kind() == ValueKindConst && v.Name() == \"0\" {\n\t\tinsts = append(insts, addr.EmitPush()...)\n\t\tinsts = append(insts, wat.NewInstConst(wat.U32{}, \"0\"))\n\t\tinsts = append(insts, wat.NewInstStore(toWatType(v.Type()), offset, 1))\n\t\treturn\n\t}\n\tinsts = append(insts, addr.EmitPush()...)                       // a\n\tinsts = append(insts, v.EmitPush()...)                          // a v", Expect: "overwrite-release :: aBlock.emitStoreToAddr: every store releases the old value"},
 		{Name: "function epilogue stops releasing registers", File: cf, Old: "\t\t\twir_fn.Insts = append(wir_fn.Insts, i.EmitRelease()...)\n", New: "\t\t\t_ = i\n", Expect: "epilogue-release"},
 		{Name: "epilogue releases before pushing the results", File: cf, Old: "\tfor _, r := range g.var_rets {\n\t\twir_fn.Insts = append(wir_fn.Insts, r.EmitPush()...)\n\t}\n\n\tfor _, i := range g.registers {\n\t\tif g.none_rc_registers == nil || !g.none_rc_registers[i] {\n\t\t\twir_fn.Insts = append(wir_fn.Insts, i.EmitRelease()...)\n\t\t}\n\t}\n", New: "\tfor _, i := range g.registers {\n\t\tif g.none_rc_registers == nil || !g.none_rc_registers[i] {\n\t\t\twir_fn.Insts = append(wir_fn.Insts, i.EmitRelease()...)\n\t\t}\n\t}\n\n\tfor _, r := range g.var_rets {\n\t\twir_fn.Insts = append(wir_fn.Insts, r.EmitPush()...)\n\t}\n", Expect: "epilogue-release"},
 		{Name: "new value stored into a register without releasing the old one", File: cf, Old: "\t\t\t\ts = append(s, v.value.EmitPop()...)\n\t\t\t} else {", New: "\t\t\t\ts = append(s, v.value.EmitPopNoRelease()...)\n\t\t\t} else {", Expect: "overwrite-release"},
@@ -80,10 +83,11 @@ func runC11(c *Ctx) {
 		"(4) free-discipline: in the embedded runtime, $runtime.free is called only by $runtime.HeapFree, $runtime.HeapFree only by $runtime.Block.Release, and there only in the arm taken when the decremented count is zero; the code generator never emits a call to either; (5) alloc-zeroed: every path of $runtime.HeapAlloc from the malloc call to the result passes through the zero-fill loop. " +
 		"NOT decided: that retains and releases balance along the paths of emitted programs, the allocator itself (C10), cycles."
 	c.Trusted = []string{"go/packages, go/types (x/tools v0.29.0)", "own WAT reader (watsrc.go)"}
-	p, wp, _ := rcLoad(c)
+	p, wp, bkp := rcLoad(c)
 	if wp == nil {
 		return
 	}
+	c11Extra(c, p, bkp)
 	info := wp.TypesInfo
 	const r1, r2, r3 = "leaf-pairing", "aggregate-delegation", "forwarder-purity"
 
@@ -509,6 +513,50 @@ func runC12(c *Ctx) {
 			probs = append(probs, "no pop into a fresh register found")
 		}
 		c.Check(len(probs) == 0, r2, "genInstruction: value into register", p.Pos(fd.Pos()), "existing register: EmitPop; fresh register: EmitPop or (no-RC) EmitPopNoRelease", "genInstruction: "+strings.Join(probs, "; ")+": the previous value of the register is never released (leak on every loop iteration)")
+	}
+	// (2b) every store of a block reference into memory releases the slot's old value on that path
+	for _, name := range []string{"aBlock.emitStoreToAddr", "aBlock.emitStore"} {
+		s, fd := seqOf(p, wp, name)
+		if fd == nil {
+			c.Undecided(r2, name, "", "function not found")
+			continue
+		}
+		isPrefix := func(a, b []string) bool {
+			if len(a) > len(b) {
+				return false
+			}
+			for i := range a {
+				if a[i] != b[i] {
+					return false
+				}
+			}
+			return true
+		}
+		var probs []string
+		nStore := 0
+		for i, e := range s.Events {
+			if e.Kind != "ctor" || e.Name != "Store" {
+				continue
+			}
+			nStore++
+			released := false
+			for _, q := range s.Events[:i] {
+				if q.Kind == "call" && q.Name == "runtime.Block.Release" && isPrefix(q.Guards, e.Guards) {
+					released = true
+				}
+			}
+			if !released {
+				g := "unconditionally"
+				if len(e.Guards) > 0 {
+					g = "when " + strings.Join(e.Guards, " && ")
+				}
+				probs = append(probs, "the slot is overwritten "+g+" without releasing the reference it held")
+			}
+		}
+		if nStore == 0 {
+			probs = append(probs, "no store found")
+		}
+		c.Check(len(probs) == 0, r2, name+": every store releases the old value", p.Pos(fd.Pos()), fmt.Sprintf("%d store(s), each after a Release on its path", nStore), name+": "+strings.Join(probs, "; ")+": the block the slot referred to keeps a count that nothing will ever drop (leak per overwrite)")
 	}
 	// (3) OnFree
 	if s, fd := seqOf(p, wp, "Block.OnFree"); fd == nil {
